@@ -90,7 +90,7 @@ impl Check for C19 {
          hopping across the in-leaf/overflow boundary and delete 90-100% (free lists spanning >= 2 pages, then drained by the next fill), plus ordinary mixed batches, rollbacks and \
          reopens. After EVERY step the independent decoder computes the exact partition of each value file: {1..bump-1} = live leaves ⊎ live overflow pages ⊎ free-list pages ⊎ free \
          entries (ln) and = live branch nodes ⊎ free-list pages ⊎ free entries (bbn) - any page below the frontier that is neither in use nor free is a leak; and \
-         hash_table_utilization().occupied == number of FULL meta bytes on disk, capacity == bucket count, occupied == 0 when the store is empty. Non-trivial = case in which the ln \
+         hash_table_utilization().occupied == number of FULL meta bytes on disk, capacity == bucket count, occupied == 0 when the store is empty. A third of the cases (<= 1500 keys) additionally crash their last operation at every I/O event boundary (C03 engine): every handle that comes out of the recovery open must report the number of FULL buckets of the recovered files and leave an exact partition. Non-trivial = case in which the ln \
          free list reached >= 2 pages (> 1022 entries) or an in-leaf<->overflow migration happened, with >= 3 commits; distinct = distinct serialized case".into()
     }
     fn cases(tier: Tier) -> u32 {
@@ -117,6 +117,26 @@ impl Check for C19 {
             ..Default::default()
         };
         let mut info = dispatch(case, &obs, &ctx.scratch, ctx.tier.pick(24 << 20, 64 << 20))?;
+        // handles that come out of a crash recovery must report truthfully as well (and must not have leaked
+        // pages): a third of the cases of modest size crash their last operation at every event boundary and
+        // every recovered handle is judged (utilisation vs FULL buckets on disk, exact partition).
+        if case.salt % 3 == 0 && case.steps.len() >= 2 && info.discarded.is_none() && info.labels.get("max_keys").copied().unwrap_or(0) <= 1500 {
+            let fc = crate::crash::FaultCase { hist: case.clone(), choice_seed: case.salt };
+            let fp = crate::crash::FaultParams {
+                mode: crate::crash::Mode::Crash,
+                max_images: ctx.tier.pick(40, 240),
+                nested: 1,
+                max_nested_images: 6,
+                randoms: 1,
+            };
+            let r = match case.cfg.hasher {
+                crate::reftrie::HasherKind::Blake3 => crate::crash::run_fault_case::<crate::driver::B3>(&fc, &fp, &ctx.scratch),
+                crate::reftrie::HasherKind::Sha2 => crate::crash::run_fault_case::<crate::driver::S2>(&fc, &fp, &ctx.scratch),
+            };
+            let ci = r.map_err(|v| Violation { step: v.step, msg: format!("[recovered crash image] {}", v.msg) })?;
+            info.add("recovered_handles_judged", ci.labels.get("images_verified").copied().unwrap_or(0));
+            info.bump("cases_with_crash_recovery");
+        }
         let l = |k: &str| info.labels.get(k).copied().unwrap_or(0);
         info.nontrivial = info.discarded.is_none()
             && l("commits") >= 3
